@@ -49,7 +49,7 @@ def render_column(model: Column) -> str:
     result += f'"{model.name}" '
     if isinstance(model.type, Enum):
         result += get_full_name_for_sql(model.type)
-    elif re.fullmatch(r'\w+(\[\]|\.\w+|\(.*\))?', model.type, re.DOTALL):
+    elif re.fullmatch(r'[A-Za-z0-9_]+(\[\]|\.[A-Za-z0-9_]+|\(.*\))?', model.type, re.DOTALL):
         result += model.type
     else:
         # anything else (e.g. "character varying") only parses back as a quoted name
